@@ -380,6 +380,36 @@ func nonNilFact(b *ssa.BasicBlock, v ssa.Value) bool {
 	return false
 }
 
+// nonNilAtCallers: v is a parameter of an unexported function, and at every static call site of that function the
+// argument is under a non-nil fact (a constructor called only on the `err != nil` branch).
+func nonNilAtCallers(v ssa.Value) bool {
+	prm, ok := v.(*ssa.Parameter)
+	if !ok {
+		return false
+	}
+	fn := prm.Parent()
+	if obj := fn.Object(); obj == nil || obj.Exported() {
+		return false
+	}
+	idx := -1
+	for i, q := range fn.Params {
+		if q == prm {
+			idx = i
+		}
+	}
+	sites := callSitesOf(fn)
+	if idx < 0 || len(sites) == 0 {
+		return false
+	}
+	for _, s := range sites {
+		args := s.Common().Args
+		if s.Common().IsInvoke() || idx >= len(args) || !nonNilFact(s.Block(), args[idx]) {
+			return false
+		}
+	}
+	return true
+}
+
 func ruleEReflectNil(p *Program, r *Reporter) {
 	for _, fn := range p.ReachFuncs() {
 		if fn.Name() != "Error" || fn.Signature.Recv() == nil {
@@ -423,7 +453,7 @@ func ruleEReflectNil(p *Program, r *Reporter) {
 								continue
 							}
 							sites++
-							if nonNilFact(gb, s.Val) {
+							if nonNilFact(gb, s.Val) || nonNilAtCallers(s.Val) {
 								good++
 							}
 						}
@@ -724,6 +754,10 @@ func ruleENoByteIndex(p *Program, r *Reporter) {
 				}
 				if bt, ok := sx.Type().Underlying().(*types.Basic); ok && bt.Info()&types.IsString != 0 {
 					n++
+					if v, isVal := in.(ssa.Value); isVal && asciiGatedIndex(v) {
+						r.OK(in.Pos(), fmt.Sprintf("%s %s[i]", p.FuncName(fn), describeAddr(sx)), "a single byte read that is used only after it has been tested to be ASCII (below utf8.RuneSelf): an ASCII byte is a whole code point wherever it stands")
+						continue
+					}
 					r.Bad(instrPos(in), fmt.Sprintf("%s %s[i]", p.FuncName(fn), describeAddr(sx)), "byte indexing of a string: positions in the language are code points")
 				}
 			}
